@@ -359,8 +359,11 @@ def jobs(tier):
         for n_sim in sims:
             shapes = [(1, 1, 1), (2, 1, 1), (1, 2, 1), (1, 1, 2)]
             if not kde:
-                shapes += [(2, 2, 2)] if q else [(2, 2, 2), (3, 1, 3),
-                                                 (2, 2, 3)]
+                # (three time points: orders that are not their own inverse)
+                shapes += [(2, 2, 2), (1, 1, 3)] if q else [
+                    (2, 2, 2), (1, 1, 3), (3, 1, 3), (2, 2, 3)]
+            elif n_sim == 2:
+                shapes += [(1, 1, 3)]
             elif not q:
                 shapes += [(2, 1, 2)]
             for (n_ids, n_obs, n_t) in shapes:
@@ -416,7 +419,8 @@ def jobs(tier):
 
 BOUNDS = dict(
     quick='5 filter classes; measured individuals 1..2, observables 1..2, '
-          'times 1..2 (parametric filters also 2x2x2), simulated individuals '
+          'times 1..2 (parametric filters also 2x2x2; 1x1x3 for all time '
+          'orders), simulated individuals '
           '2..3 (4 for the mixture; KDE with 3 simulated individuals only on '
           'one cell); composed filters over 3 pairs with splits (1,1), (2,1) '
           'and over 3-4 sub-filters (flat = nested); '
